@@ -21,6 +21,22 @@ def run(ctx, rep):
         o.key = o.key.replace("R03b", "R13e", 1).replace("R03g", "R13e", 1)
         o.rule = "R13e"
         rep.obs.append(o)
+    # R13f: what the roots reach stays alive, and the intern table follows the sweeper
+    from . import C18
+    sub = type(rep)(rep.prop)
+    C03.r03c(ctx, sub)
+    C18.r18b(ctx, sub)
+    rep.rule("R13f", "a collection at a slice boundary frees nothing the resumed run can reach: the markers trace every "
+             "reference-carrying field of every cell kind and payload (C03's R03c, including the environment and stack saved in "
+             "a continuation), and a freed symbol leaves the intern table (C18's R18b), so a name interned again after the "
+             "collection is not an alias of a recycled cell. Uninterrupted short runs never collect between the two events.")
+    k = 0
+    for o in sub.obs:
+        o.key = o.key.replace("R03c", "R13f", 1).replace("R18b", "R13f", 1)
+        o.rule = "R13f"
+        rep.obs.append(o)
+        k += 1
+    rep.floor("R13f", "trace / intern-table obligations", k, 40)
     rep.note("composes with C03: a collection at a slice boundary is an instruction-boundary collection (R03a-d)")
     rep.not_decided += ["value/effect equality of sliced and uninterrupted runs for concrete programs",
                         "the JavaScript resume loop of the wasm front end"]
